@@ -187,7 +187,23 @@ func genMoreFacts(facts map[string]interface{}) string {
 			}
 		}
 	}
-	facts["more_facts"] = map[string]interface{}{"storage_fields": fields, "reader_assigns": assigns, "verify_accepts": accepts, "clock_reads": clockReads, "clock_dirs": clockDirs}
+	// the poll tick and SaveOffset exclude each other: both begin with s.tickMu.Lock() and a deferred Unlock (fix 62396d7)
+	tickLocked := [][2]string{}
+	for _, name := range []string{"tick", "SaveOffset"} {
+		fd, _ := findFuncOpt(nd, "BaseNodeService", name)
+		if fd == nil {
+			die("client/services/node: BaseNodeService.%s not found", name)
+		}
+		first, second := "", ""
+		if len(fd.Body.List) > 0 {
+			first = srcOf(fd.Body.List[0])
+		}
+		if len(fd.Body.List) > 1 {
+			second = srcOf(fd.Body.List[1])
+		}
+		tickLocked = append(tickLocked, [2]string{name, first + " ; " + second})
+	}
+	facts["more_facts"] = map[string]interface{}{"storage_fields": fields, "reader_assigns": assigns, "verify_accepts": accepts, "clock_reads": clockReads, "clock_dirs": clockDirs, "tick_locked": tickLocked}
 	var b strings.Builder
 	b.WriteString("-- GENERATED by /verif/translator from /repo storage/file_storage/fileStorage.go and client/services/node/node_service.go. DO NOT EDIT.\n")
 	b.WriteString("namespace Dc4bcVerif.Gen.MoreFacts\n\n")
@@ -201,6 +217,14 @@ func genMoreFacts(facts map[string]interface{}) string {
 			b.WriteString(", ")
 		}
 		fmt.Fprintf(&b, "(%s, %s)", leanStr(cr[0]), leanStr(cr[1]))
+	}
+	b.WriteString("]\n\n")
+	b.WriteString("/-- (method of BaseNodeService, its first two statements) for the poll tick and for SaveOffset -/\ndef tickLocked : List (String × String) := [")
+	for i, tl := range tickLocked {
+		if i > 0 {
+			b.WriteString(", ")
+		}
+		fmt.Fprintf(&b, "(%s, %s)", leanStr(tl[0]), leanStr(tl[1]))
 	}
 	b.WriteString("]\n\n")
 	b.WriteString("end Dc4bcVerif.Gen.MoreFacts\n")
